@@ -28,7 +28,9 @@ for area in areas:
                 print('%-28s %s rc=%d %s' % (name, prop, r.returncode, ','.join(keys)[:160]), flush=True)
         finally:
             shutil.rmtree(scratch, ignore_errors=True)
-            shutil.rmtree(os.path.join(V, '.build', 'alt-' + hashlib.sha256(scratch.encode()).hexdigest()[:10]), ignore_errors=True)
+            h = hashlib.sha256(scratch.encode()).hexdigest()[:10]
+            shutil.rmtree(os.path.join(V, '.build', 'alt-' + h), ignore_errors=True)
+            shutil.rmtree(os.path.join(V, 'replays', 'alt-' + h), ignore_errors=True)
 os.makedirs(os.path.join(V, 'selftest_results'), exist_ok=True)
 out = os.path.join(V, 'selftest_results', 'benign' + ('-' + '-'.join(areas) if len(areas) < len(MAP) else '') + '.json')
 json.dump(results, open(out, 'w'), indent=1)
